@@ -1357,6 +1357,18 @@ OWN_ATTRS = ['coord_vectors', 'cell_boundary_vecs', 'cell_sizes_vecs', 'cell_sid
              'grid.min()', 'grid.max()', 'grid.meshgrid', 'grid.points()',
              'set.min_pt', 'set.max_pt', 'set.extent', 'set.mid_pt', 'set.min()', 'set.max()']
 EXPECTED_BRANCHES = ['ownership/input/' + c for c in OWN_CTORS] + ['ownership/returned/' + a for a in OWN_ATTRS]
+# round 4 / 5 strata: losing one of these classes is a broken coverage obligation in the thorough tier
+EXPECTED_BRANCHES += ['nd:' + t for t in ('iso', 'aniso', 'iso-within-tolerance', 'aniso-near-tolerance', 'nonuniform',
+                                          'length-1-axis', 'regular', 'node-on-min', 'node-on-max', '3d')] + \
+    ['equiv:' + t for t in ('flags00', 'flags01', 'flags10', 'flags11', 'fromgrid-ok', 'fromgrid-raises')] + \
+    ['sets:' + t for t in ('eq/any', 'contain/any', 'measure/any', 'corners/any', 'subgrid/any', 'setops/any',
+                           'validate/any', 'eq/differs-in-lo', 'eq/differs-in-hi', 'eq/differs-in-nodes',
+                           'contain/outside-above', 'contain/outside-below', 'contain/meshgrid-outside',
+                           'contain/between-nodes', 'measure/point-set', 'measure/degenerate-axis',
+                           'corners/degenerate-axis', 'subgrid/uniform-path', 'subgrid/nonuniform-path',
+                           'subgrid/proper-subgrid', 'subgrid/moved-within-rtol', 'subgrid/moved-off-grid',
+                           'setops/uniform_grid', 'setops/squeeze-to-0d', 'validate/grid-outside-lo',
+                           'validate/grid-outside-hi', 'sets/3d'.replace('sets/', 'eq/'))]
 
 
 def own_observe(p):
@@ -1820,6 +1832,381 @@ def run_equiv(axes, exact, rp):
 
 
 # ---------------------------------------------------------------------------
+# round 5: the set / grid layer below RectPartition (`sets`): IntervalProd and RectGrid methods that the
+# property reaches through the partition (equality, containment, measures, corners, sub-grids, set
+# surgery), each with the property's oracle on the real objects
+
+SETS_KINDS = ['eq', 'contain', 'measure', 'corners', 'subgrid', 'setops', 'validate']
+
+
+def case_sets(rng, kind=None):
+    while True:
+        desc = gen_desc(rng, True)
+        if ncells(desc) <= 120:
+            break
+    kind = kind or rng.choice(SETS_KINDS)
+    rp = {'op': 'sets', 'kind': kind, 'part': desc_json(desc), 'seed': rng.randrange(10 ** 9), 'exact': True}
+    return run_sets(desc, kind, rp)
+
+
+def build_shifted(desc, which, ax, delta):
+    """A valid neighbour of `desc`: lower limit moved down / upper limit moved up / all nodes of one axis
+    moved (and both limits with them) by `delta`."""
+    d = {k: [list(r) if k == 'c' else r for r in desc[k]] for k in ('c', 'lo', 'hi')}
+    if which == 'lo':
+        d['lo'][ax] = d['lo'][ax] - delta
+    elif which == 'hi':
+        d['hi'][ax] = d['hi'][ax] + delta
+    else:
+        d['c'][ax] = [v + delta for v in d['c'][ax]]
+        d['hi'][ax] = d['hi'][ax] + delta
+    return d
+
+
+def run_sets(desc, kind, rp):
+    import odl
+    import random as _random
+    rng = _random.Random(rp['seed'])
+    line = 'sets {}'.format(wire_part(desc))
+    p, err = guarded(lambda: build(desc))
+    if p is None:
+        return Case('sets', line, None, [('constructor', 'valid partition rejected: ' + err)], None, rp, True,
+                    kind='none')
+    cs, los, his = desc['c'], desc['lo'], desc['hi']
+    nd = len(cs)
+    shape = [len(c) for c in cs]
+    problems, tags = [], set(['any'])
+
+    def chk(key, cond, msg=''):
+        if not cond:
+            problems.append((kind + ' ' + key, '{} on {}'.format(msg or key, show_desc(desc))))
+
+    def val(f):
+        r, e = guarded(f)
+        if isinstance(r, np.bool_):
+            r = bool(r)
+        return ('raised ' + e) if r is None and e is not None else r
+
+    def raises(f, exc):
+        try:
+            f()
+        except exc:
+            return True
+        except Exception:  # noqa
+            return False
+        return False
+    fl_ = lambda xs: [float(x) for x in xs]  # noqa
+    impl = None
+    kindcase = 'none'
+    if kind == 'eq':
+        q = build(desc)
+        chk('fresh equal partition ==', val(lambda: p == q) is True)
+        chk('fresh equal partition !=', val(lambda: p != q) is False)
+        chk('fresh equal partition approx_equals atol=0', val(lambda: p.approx_equals(q, atol=0.0)) is True)
+        chk('fresh equal partition hash', val(lambda: hash(p) == hash(q)) is True)
+        chk('grid ==', val(lambda: p.grid == q.grid) is True and val(lambda: p.grid.approx_equals(q.grid, atol=0.0)) is True)
+        chk('set ==', val(lambda: p.set == q.set) is True and val(lambda: p.set.approx_equals(q.set, atol=0.0)) is True)
+        chk('== other type', val(lambda: p == 'x') is False and val(lambda: p.set == 'x') is False and
+            val(lambda: p.grid == 'x') is False and val(lambda: p.approx_equals('x', atol=1.0)) is False and
+            val(lambda: p.set.approx_equals('x', atol=1.0)) is False)
+        chk('len', val(lambda: len(p)) == shape[0] and val(lambda: len(p.grid)) == shape[0] and
+            val(lambda: len(p.set)) == nd, 'len(p), len(p.grid), len(p.set)')
+        which = rng.choice(['lo', 'hi', 'nodes'])
+        ax = rng.randrange(nd)
+        delta = F(1, 2 ** rng.randint(3, 12))
+        tags.add('differs-in-' + which)
+        r = build(build_shifted(desc, which, ax, delta))
+        chk('different partition ==', val(lambda: p == r) is False and val(lambda: p != r) is True,
+            '{} of axis {} moved by {}: == / !='.format(which, ax, fs(delta)))
+        chk('different partition approx_equals below atol', val(lambda: p.approx_equals(r, atol=float(delta * 2))) is True,
+            '{} of axis {} moved by {}: approx_equals(atol=2*delta)'.format(which, ax, fs(delta)))
+        chk('different partition approx_equals above atol', val(lambda: p.approx_equals(r, atol=float(delta / 2))) is False,
+            '{} of axis {} moved by {}: approx_equals(atol=delta/2)'.format(which, ax, fs(delta)))
+        if which == 'nodes':
+            chk('grid == detects moved nodes', val(lambda: p.grid == r.grid) is False and
+                val(lambda: p.grid.approx_equals(r.grid, atol=float(delta / 2))) is False and
+                val(lambda: p.grid.approx_equals(r.grid, atol=float(delta * 2))) is True)
+        else:
+            chk('set == detects moved limit', val(lambda: p.set == r.set) is False and
+                val(lambda: p.set.approx_equals(r.set, atol=float(delta / 2))) is False and
+                val(lambda: p.set.approx_equals(r.set, atol=float(delta * 2))) is True)
+        if nd >= 2:
+            chk('different ndim ==', val(lambda: p == p.byaxis[0]) is False and
+                val(lambda: p.set == p.set[[0]]) is False and val(lambda: p.grid == p.grid[:, 0] if False else True))
+    elif kind == 'contain':
+        s, g = p.set, p.grid
+        chk('set contains its grid', val(lambda: s.contains_set(g)) is True and
+            val(lambda: s.contains_set(g.convex_hull())) is True and val(lambda: s.contains_set(s)) is True)
+        chk('contains_all(grid)', val(lambda: bool(s.contains_all(g))) is True)
+        chk('contains_all(meshgrid)', val(lambda: bool(s.contains_all(p.meshgrid))) is True)
+        pts = p.points()
+        arr = pts.ravel() if nd == 1 else pts.T
+        chk('contains_all(point array)', val(lambda: bool(s.contains_all(arr))) is True)
+        k = rng.randrange(len(pts))
+        pt = [float(x) for x in pts[k]]
+        chk('grid point in set and in grid', val(lambda: (pt in s) and (pt in g)) is True, 'point {}'.format(pt))
+        chk('element()', val(lambda: (g.element() in g) and (s.element() in s)) is True)
+        ch = val(lambda: g.convex_hull())
+        chk('convex_hull limits', val(lambda: [frac(v) for v in ch.min_pt] == [c[0] for c in cs] and
+                                      [frac(v) for v in ch.max_pt] == [c[-1] for c in cs]) is True)
+        ax = rng.randrange(nd)
+        d = F(1, 2 ** rng.randint(2, 10))
+        out = list(pts[k])
+        side = rng.choice(['above', 'below'])
+        tags.add('outside-' + side)
+        out[ax] = float(his[ax] + d) if side == 'above' else float(los[ax] - d)
+        out = [float(x) for x in out]
+        chk('outside point not in set', val(lambda: out in s) is False, 'point {}'.format(out))
+        chk('outside point approx_contains', val(lambda: s.approx_contains(out, atol=float(2 * d))) is True and
+            val(lambda: s.approx_contains(out, atol=float(d / 2))) is False, 'point {} d={}'.format(out, fs(d)))
+        for ex, name in ((2.0, '2'), (1.0, '1'), (float('inf'), 'inf')):
+            chk('dist exponent ' + name, val(lambda: frac(float(s.dist(out, exponent=ex)))) == d and
+                val(lambda: float(s.dist(pt, exponent=ex))) == 0.0, 'dist({}) expected {}'.format(out, fs(d)))
+        chk('dist of NaN / wrong length', val(lambda: s.dist([float('nan')] * nd)) == float('inf') and
+            raises(lambda: s.dist([0.0] * (nd + 1)), ValueError))
+        arr_out = np.array(arr, dtype=float, copy=True)
+        if nd == 1:
+            arr_out[k] = out[0]
+        else:
+            arr_out[ax, k] = out[ax]
+        chk('contains_all(array with one outside point)', val(lambda: bool(s.contains_all(arr_out))) is False)
+        mesh_out = tuple(m + (float(d) if i == ax else 0.0) for i, m in enumerate(p.meshgrid))
+        if cs[ax][-1] + d > his[ax]:
+            chk('contains_all(shifted meshgrid)', val(lambda: bool(s.contains_all(mesh_out))) is False and
+                val(lambda: bool(s.contains_all(mesh_out, atol=float(2 * d)))) is True)
+            tags.add('meshgrid-outside')
+        chk('malformed points are not contained', val(lambda: ([0.0] * (nd + 1)) in s) is False and
+            val(lambda: 'abc' in s) is False and val(lambda: (1j in s)) is False and
+            val(lambda: s.approx_contains('abc', atol=1.0)) is False and
+            val(lambda: s.approx_contains([1j] * nd, atol=1.0)) is False and
+            val(lambda: s.approx_contains([0.0] * (nd + 1), atol=1.0)) is False and
+            val(lambda: ([0.0] * (nd + 1)) in g) is False and
+            val(lambda: bool(s.contains_all('abc'))) is False)
+        chk('contains_set needs min/max', raises(lambda: s.contains_set(3.0), AttributeError))
+        # a point strictly between two nodes is in the set but not in the grid
+        axm = [i for i in range(nd) if shape[i] > 1]
+        if axm:
+            a2 = rng.choice(axm)
+            mid = list(pts[0])
+            mid[a2] = float((cs[a2][0] + cs[a2][1]) / 2)
+            mid = [float(x) for x in mid]
+            gap = (cs[a2][1] - cs[a2][0]) / 2
+            chk('cell boundary between nodes: in set, not in grid', val(lambda: (mid in s) and (mid not in g)) is True and
+                val(lambda: g.approx_contains(mid, atol=float(gap * 2))) is True and
+                val(lambda: g.approx_contains(mid, atol=float(gap / 2))) is False, 'point {}'.format(mid))
+            tags.add('between-nodes')
+    elif kind == 'measure':
+        s = p.set
+        ext = [h - l for l, h in zip(los, his)]
+        vol = F(1)
+        for e in ext:
+            vol *= e
+        true_nd = len([e for e in ext if e != 0])
+        chk('volume = product of extents', val(lambda: frac(float(s.volume))) == vol and
+            val(lambda: [frac(v) for v in s.extent]) == ext, 'volume {}'.format(val(lambda: s.volume)))
+        sums = [sum(frac(v) for v in vec.tolist()) for vec in p.cell_sizes_vecs]
+        chk('cell sizes sum to the extent', sums == ext, 'sums {} extents {}'.format(fl(sums), fl(ext)))
+        cellvols = [F(1)]
+        for vec in p.cell_sizes_vecs:
+            cellvols = [a * frac(b) for a in cellvols for b in vec.tolist()]
+        chk('n-d cell volumes sum to the volume', sum(cellvols) == vol and len(cellvols) == ncells(desc))
+        if nd == 1:
+            chk('length', val(lambda: frac(float(s.length))) == vol and raises(lambda: s.area, NotImplementedError))
+        elif nd == 2:
+            chk('area', val(lambda: frac(float(s.area))) == vol and raises(lambda: s.length, NotImplementedError))
+        else:
+            chk('length / area undefined', raises(lambda: s.length, NotImplementedError) and
+                raises(lambda: s.area, NotImplementedError))
+        nz = F(1)
+        for e in ext:
+            if e != 0:
+                nz *= e
+        tags.add('degenerate-axis' if true_nd < nd else 'full-dimensional')
+        if true_nd == 0:
+            chk('measure of a point set', val(lambda: float(s.measure())) == 0.0 and val(lambda: float(s.volume)) == 0.0)
+            tags.add('point-set')
+        else:
+            chk('measure()', val(lambda: frac(float(s.measure()))) == nz and
+                val(lambda: frac(float(s.measure(ndim=true_nd)))) == nz and
+                val(lambda: float(s.measure(ndim=true_nd + 1))) == 0.0 and
+                val(lambda: float(s.measure(ndim=true_nd - 1))) == float('inf'))
+        chk('mid_pt inside', val(lambda: [frac(v) for v in s.mid_pt]) == [(l + h) / 2 for l, h in zip(los, his)] and
+            val(lambda: fl_(s.mid_pt) in s) is True)
+    elif kind == 'corners':
+        s, g = p.set, p.grid
+
+        def prod(vecs, order):
+            out = [[]]
+            for v in (vecs if order == 'C' else list(reversed(vecs))):
+                out = [o + [x] for o in out for x in v]
+            return out if order == 'C' else [list(reversed(o)) for o in out]
+        svecs = [[l] if l == h else [l, h] for l, h in zip(los, his)]
+        gvecs = [[c[0]] if len(c) == 1 else [c[0], c[-1]] for c in cs]
+        for order in ('C', 'F'):
+            got = val(lambda: [[frac(x) for x in row] for row in s.corners(order=order).tolist()])
+            chk('set corners order ' + order, got == prod(svecs, order), 'corners() = {}'.format(got))
+            got = val(lambda: [[frac(x) for x in row] for row in g.corners(order=order).tolist()])
+            chk('grid corners order ' + order, got == prod(gvecs, order), 'grid.corners() = {}'.format(got))
+        cg = val(lambda: g.corner_grid())
+        chk('corner_grid is a subgrid', val(lambda: bool(cg.is_subgrid(g))) is True and
+            val(lambda: [[frac(x) for x in v.tolist()] for v in cg.coord_vectors]) == gvecs)
+        corners = prod(svecs, 'C')
+        idx = []
+        for c in corners:
+            arg = float(c[0]) if nd == 1 else fl_(c)
+            i = val(lambda: p.index(arg))
+            i = [i] if nd == 1 else (list(i) if isinstance(i, tuple) else i)
+            exp = [0 if x == l else n - 1 for x, l, n in zip(c, los, shape)]
+            exp = [0 if (l == h) else e for e, l, h in zip(exp, los, his)]
+            chk('corner of the set lies in the extreme cell', i == exp and val(lambda: fl_(c) in s) is True,
+                'index({}) = {} expected {}'.format(fl(c), i, exp))
+            idx.append(i if isinstance(i, list) else None)
+        chk('asarray(grid) = points()', val(lambda: bool(np.array_equal(np.asarray(g), p.points()))) is True)
+        if any(l == h for l, h in zip(los, his)):
+            tags.add('degenerate-axis')
+        impl = {'vol': None, 'corners': corners, 'idx': idx}
+        ext = [h - l for l, h in zip(los, his)]
+        v = F(1)
+        for e in ext:
+            v *= e
+        impl['vol'] = val(lambda: frac(float(s.volume)))
+        cellvols = [F(1)]
+        for vec in p.cell_sizes_vecs:
+            cellvols = [a * frac(b) for a in cellvols for b in vec.tolist()]
+        impl['cellvols'] = cellvols
+        kindcase = 'sets'
+    elif kind == 'subgrid':
+        g = p.grid
+        items = []
+        for n in shape:
+            a = rng.randrange(n)
+            b = rng.randint(a + 1, n)
+            items.append(slice(a, b, rng.choice([None, 1, 2, 3])))
+        sub = val(lambda: p[tuple(items)])
+        if isinstance(sub, str):
+            chk('valid stepped selection', False, 'partition[{}] {}'.format(items, sub))
+        else:
+            chk('grid of a sub-partition is a subgrid', val(lambda: bool(sub.grid.is_subgrid(g))) is True and
+                val(lambda: bool(g.is_subgrid(g))) is True, 'partition[{}]'.format(items))
+            chk('set of a sub-partition is contained', val(lambda: p.set.contains_set(sub.set)) is True and
+                val(lambda: sub.set.contains_set(sub.grid)) is True, 'partition[{}]'.format(items))
+            if sub.shape != p.shape:
+                chk('larger grid is not a subgrid', val(lambda: bool(g.is_subgrid(sub.grid))) is False)
+                tags.add('proper-subgrid')
+            uni = bool(sub.grid.is_uniform and g.is_uniform)
+            tags.add('uniform-path' if uni else 'nonuniform-path')
+            # the same nodes moved by d in one axis: subgrid only up to atol >= d
+            ax = rng.randrange(nd)
+            d = F(1, 2 ** rng.randint(3, 10))
+            vecs = [[float(x + (d if i == ax else 0)) for x in (frac(v) for v in vec.tolist())]
+                    for i, vec in enumerate(sub.grid.coord_vectors)]
+            moved = val(lambda: odl.RectGrid(*vecs))
+            sc = max([abs(frac(x)) for v in vecs for x in v] + [F(1)])
+            clear = d > sc * F(1, 10 ** 4)  # the non-uniform path uses np.isclose with its default rtol=1e-5
+            tags.add('moved-clear' if clear else 'moved-within-rtol')
+            mv = [frac(x) for x in vecs[ax]]
+
+            def within(atol):
+                return all(min(abs(x - y) for y in cs[ax]) <= atol for x in mv)
+            chk('moved nodes are a subgrid up to atol', val(lambda: bool(moved.is_subgrid(g, atol=float(2 * d)))) is True,
+                'axis {} moved by {} items {}'.format(ax, fs(d), items))
+            if True:
+                chk('moved nodes are not a subgrid below atol' +
+                    ('' if clear or uni else ' (non-uniform path, deviation within 1e-5 relative)'),
+                    val(lambda: bool(moved.is_subgrid(g, atol=float(d / 2)))) is within(d / 2) and
+                    val(lambda: bool(moved.is_subgrid(g))) is within(0),
+                    'axis {} moved by {} items {} ({} path)'.format(ax, fs(d), items, 'uniform' if uni else 'non-uniform'))
+                tags.add('moved-onto-other-nodes' if within(0) else 'moved-off-grid')
+            chk('is_subgrid of other types', val(lambda: g.is_subgrid('x')) is False)
+    elif kind == 'setops':
+        s, g = p.set, p.grid
+        k = rng.randint(1, nd)
+        axes = sorted(rng.sample(range(nd), k))
+        vals = [rng.choice(cs[a]) for a in axes]
+        col = val(lambda: s.collapse(axes if k > 1 or rng.random() < 0.5 else axes[0],
+                                     fl_(vals) if k > 1 or rng.random() < 0.5 else float(vals[0])))
+        exp_lo = [vals[axes.index(i)] if i in axes else los[i] for i in range(nd)]
+        exp_hi = [vals[axes.index(i)] if i in axes else his[i] for i in range(nd)]
+        ok = not isinstance(col, str) and [frac(v) for v in col.min_pt] == exp_lo and [frac(v) for v in col.max_pt] == exp_hi
+        chk('collapse to a node', ok and val(lambda: s.contains_set(col)) is True, 'collapse({}, {}) = {}'.format(axes, fl(vals), col))
+        if ok:
+            keep = [i for i in range(nd) if exp_lo[i] != exp_hi[i]]
+            sq = val(lambda: col.squeeze())
+            chk('squeeze of a collapsed set', not isinstance(sq, str) and [frac(v) for v in sq.min_pt] == [los[i] for i in keep] and
+                [frac(v) for v in sq.max_pt] == [his[i] for i in keep] and
+                (not keep or val(lambda: sq == s[keep]) is True), 'squeeze() = {}'.format(sq))
+            if not keep:
+                tags.add('squeeze-to-0d')
+        a = rng.choice(axes)
+        chk('collapse rejects a value outside', raises(lambda: s.collapse(a, float(his[a] + 1)), ValueError) and
+            raises(lambda: s.collapse(a, float(los[a] - 1)), ValueError) and
+            raises(lambda: s.collapse([a], [float(los[a]), float(los[a])]), ValueError) and
+            raises(lambda: s.collapse(nd + 1, 0.0), IndexError) and raises(lambda: s.collapse(-1, float(los[-1])), IndexError))
+        other = gen_desc(rng, True, ndim=rng.choice([1, 2]))
+        q = build(other)
+        at = rng.randint(-nd, nd)
+        ins = val(lambda: p.insert(at, q))
+        chk('insert: set and grid go together', not isinstance(ins, str) and
+            val(lambda: ins.set == s.insert(at, q.set)) is True and val(lambda: ins.grid == g.insert(at, q.grid)) is True,
+            'insert({}, ..)'.format(at))
+        app = val(lambda: p.append(q))
+        chk('append: set and grid go together', not isinstance(app, str) and
+            val(lambda: app.set == s.append(q.set)) is True and val(lambda: app.grid == g.append(q.grid)) is True and
+            val(lambda: s.insert(0) == s) is True and val(lambda: g.insert(0) == g) is True and
+            val(lambda: s.append(q.set, q.set) == s.append(q.set).append(q.set)) is True and
+            val(lambda: g.append(q.grid, q.grid) == g.append(q.grid).append(q.grid)) is True)
+        chk('insert rejects', raises(lambda: s.insert(nd + 1, q.set), IndexError) and raises(lambda: s.insert(0, 'x'), TypeError))
+        sel = sorted(rng.sample(range(nd), rng.randint(1, nd)))
+        sub = val(lambda: s[sel])
+        chk('set[indices]', not isinstance(sub, str) and [frac(v) for v in sub.min_pt] == [los[i] for i in sel] and
+            [frac(v) for v in sub.max_pt] == [his[i] for i in sel] and
+            val(lambda: p.byaxis[sel].set == sub) is True, 'set[{}]'.format(sel))
+        # uniform_grid = the grid of the uniform partition with nodes on the boundary
+        ns = [rng.choice([2, 3, 5]) for _ in range(nd)]
+        nondeg = all(l < h for l, h in zip(los, his))
+        if nondeg:
+            ug = val(lambda: odl.uniform_grid(fl_(los), fl_(his), ns))
+            up = val(lambda: odl.uniform_partition(fl_(los), fl_(his), ns, nodes_on_bdry=True))
+            chk('uniform_grid = grid of uniform_partition(nodes_on_bdry=True)',
+                not isinstance(ug, str) and not isinstance(up, str) and val(lambda: ug == up.grid) is True and
+                val(lambda: s.contains_set(ug)) is True and val(lambda: ug.convex_hull() == s) is True)
+            tags.add('uniform_grid')
+    else:  # validate
+        lo_f, hi_f = fl_(los), fl_(his)
+        chk('IntervalProd rejects malformed limits',
+            raises(lambda: odl.IntervalProd([lo_f, lo_f], hi_f), ValueError) and
+            raises(lambda: odl.IntervalProd(lo_f, [hi_f, hi_f]), ValueError) and
+            raises(lambda: odl.IntervalProd(lo_f + [0.0], hi_f), ValueError) and
+            raises(lambda: odl.IntervalProd([float('nan')] + lo_f[1:], hi_f), ValueError) and
+            raises(lambda: odl.IntervalProd(lo_f, [float('nan')] + hi_f[1:]), ValueError) and
+            raises(lambda: odl.IntervalProd([hi_f[0] + 1.0] + lo_f[1:], hi_f), ValueError))
+        # a grid sticking out of the set by d is rejected by RectPartition; accepted values are exact
+        ax = rng.randrange(nd)
+        d = F(1, 2 ** rng.randint(3, 12))
+        side = rng.choice(['lo', 'hi'])
+        tags.add('grid-outside-' + side)
+        bad_lo = [l + (d + (cs[i][0] - l) if (i == ax and side == 'lo') else 0) for i, l in enumerate(los)]
+        bad_hi = [h - (d + (h - cs[i][-1]) if (i == ax and side == 'hi') else 0) for i, h in enumerate(his)]
+        if all(a <= b for a, b in zip(bad_lo, bad_hi)):
+            chk('RectPartition rejects a grid outside the set',
+                raises(lambda: odl.RectPartition(odl.IntervalProd(fl_(bad_lo), fl_(bad_hi)), p.grid), ValueError),
+                'limits [{}, {}]'.format(fl(bad_lo), fl(bad_hi)))
+            inter = odl.IntervalProd(fl_(bad_lo), fl_(bad_hi))
+            chk('contains_set with tolerance', val(lambda: inter.contains_set(p.grid, atol=float(2 * d))) is True and
+                val(lambda: inter.contains_set(p.grid, atol=float(d / 2))) is False and
+                val(lambda: bool(inter.contains_all(p.grid))) is False and
+                val(lambda: bool(inter.contains_all(p.grid, atol=float(2 * d)))) is True)
+        chk('RectPartition rejects other types / dimensions',
+            raises(lambda: odl.RectPartition('x', p.grid), TypeError) and
+            raises(lambda: odl.RectPartition(p.set, 'x'), TypeError) and
+            raises(lambda: odl.RectPartition(p.set.append(odl.IntervalProd(0, 1)), p.grid), ValueError))
+    tags.add('{}d'.format(nd))
+    sig = ('sets', True, kind, shape_class(desc), flags_class(desc), tuple(sorted(kind + '/' + t for t in tags)))
+    return Case('sets', line, impl if impl is not None else True, problems, sig, rp, True, scale_of(desc),
+                kind=kindcase)
+
+
+# ---------------------------------------------------------------------------
 # comparison with the model
 
 def compare(ctx, case, ans):
@@ -1904,6 +2291,21 @@ def compare(ctx, case, ans):
                 ctx.disagree(rp, '{} = {}'.format(name, a), '{} = {}'.format(name, b))
                 return
         return
+    if case.kind == 'sets':
+        d = parse_answer(ans)
+        if d is None or '_bad' in d:
+            ctx.disagree(rp, 'set.volume / corners of a valid partition', ans[:300])
+            return
+        m_idx = [None if t == 'err' else [int(x) for x in t.split(',')] for t in d['idx'].split(';')]
+        checks = [('set.volume', impl['vol'] == core.pfrac(d['vol']), impl['vol'], d['vol']),
+                  ('n-d cell volumes', impl['cellvols'] == core.pfl(d['cellvols']), impl['cellvols'][:8], d['cellvols'][:200]),
+                  ('set.corners()', impl['corners'] == core.pfmat(d['corners']), impl['corners'][:8], d['corners'][:200]),
+                  ('index(corner)', impl['idx'] == m_idx, impl['idx'], m_idx)]
+        for name, ok, a, b in checks:
+            if not ok:
+                ctx.disagree(rp, '{} = {}'.format(name, a), '{} = {}'.format(name, b))
+                return
+        return
     if case.kind == 'equiv':
         if impl is None:
             if ans != 'err':
@@ -1941,7 +2343,7 @@ def gen_cases(ctx, budget):
     ops = ['props'] * 4 + ['index'] * 5 + ['getitem'] * 7 + ['insert', 'append', 'squeeze', 'squeeze',
                                                              'byaxis', 'byaxis'] + \
           ['uniform'] * 5 + ['fromintv'] * 3 + ['fromgrid'] * 2 + ['nonuniform'] * 3 + ['history'] * 2 + \
-          ['nd'] * 4 + ['equiv'] * 3
+          ['nd'] * 4 + ['equiv'] * 3 + ['sets'] * 5
     for c in ownership_cases(rng, max(1, budget // 2500)):
         yield c
     for _ in range(budget):
@@ -1973,6 +2375,8 @@ def gen_cases(ctx, budget):
             yield case_nd(rng, exact)
         elif op == 'equiv':
             yield case_equiv(rng, exact)
+        elif op == 'sets':
+            yield case_sets(rng)
         else:
             yield case_nonuniform(rng, exact)
 
@@ -2076,6 +2480,8 @@ def replay(ctx, rp):
         c = run_fromintv(axes, unwire_flags(fw), fw, flag_class(fw, len(axes)), exact, rp)
     elif op == 'nd':
         c = run_nd(desc_unjson(rp['part']), exact, rp)
+    elif op == 'sets':
+        c = run_sets(desc_unjson(rp['part']), rp['kind'], rp)
     elif op == 'equiv':
         axes = [dict(n=a['n'], bl=a['bl'], br=a['br'], lo=core.pfrac(a['lo']), hi=core.pfrac(a['hi']))
                 for a in rp['axes']]
